@@ -149,7 +149,7 @@ def run(chk):
         unit_cases.append((t, x, u))
     ulines = []
     for t, x, u in unit_cases:
-        ds = "(%s %s)" % (fl(x), u)
+        ds = "(%s %s)" % (fl(x), u) if x != 0 else "(1.0 %s - 1.0 %s)" % (u, u)
         ulines += ["(%s + %s) - %s" % (instant_src(t), ds, ds),
                    "((%s + %s) - %s) -> s" % (instant_src(t), ds, instant_src(t)),
                    "%s -> s" % ds]
